@@ -8,6 +8,7 @@ import SymfcModel.Lemmas.LinAlg
 import SymfcModel.Lemmas.EigAssemble
 import SymfcModel.Lemmas.BlockDiag
 import SymfcModel.Lemmas.FindBlocks
+import SymfcModel.Lemmas.Deflation
 namespace Symfc.C15
 open Symfc
 
@@ -154,6 +155,30 @@ theorem sub_block_unit_eigenvector_lifts [DecidableEq n] (A : Matrix n n K) (hA 
     (hle : ∀ x : n → K, x ⬝ᵥ (A *ᵥ x) ≤ x ⬝ᵥ x) (S : Finset n) (x : n → K)
     (hsupp : ∀ i, i ∉ S → x i = 0) (hS : ∀ i ∈ S, (A *ᵥ x) i = x i) : A *ᵥ x = x :=
   LinAlg.subblock_unit_eigvec A hA hle S x hsupp hS
+
+/-- C15.c (deflation step of `_block_eigh_projector`, the block-divided / large path): unit eigenvectors `V` found in
+    the sub-blocks are removed (`p_block -= V Vᵀ`), the rest is compressed with the complement columns `Q` (`cmplt`) and
+    solved, the answer is `[V, Q W]`. For ANY symmetric contraction `A` (a projector or `1 − TᵀT/ν`), any `V` with
+    `A V = V`, any `Q` with orthonormal columns such that `[V Q]` is an orthogonal matrix: `x` is a unit eigenvector of
+    `A` IFF `x = V a + Q w` with `w` a unit eigenvector of the compressed deflated matrix `Qᵀ (A − V Vᵀ) Q` — nothing
+    below eigenvalue 1 enters through the complementary problem and no unit direction is dropped by it. (The eigen
+    kernel's own acceptance window on SUB-blocks is finding F8, outside this exact statement.) -/
+theorem block_divided_deflation_is_exact {k q : Type*} [Fintype k] [Fintype q] [DecidableEq n] [DecidableEq k]
+    [DecidableEq q] (A : Matrix n n K) (hA : Aᵀ = A) (hle : ∀ x : n → K, x ⬝ᵥ (A *ᵥ x) ≤ x ⬝ᵥ x)
+    (V : Matrix n k K) (hAV : A * V = V) (Q : Matrix n q K) (hQ : Qᵀ * Q = 1) (hVQ : Vᵀ * Q = 0)
+    (hsplit : V * Vᵀ + Q * Qᵀ = 1) (x : n → K) :
+    A *ᵥ x = x ↔ ∃ (a : k → K) (w : q → K),
+      (Qᵀ * (A - V * Vᵀ) * Q) *ᵥ w = w ∧ x = V *ᵥ a + Q *ᵥ w :=
+  Deflation.deflation_exact A hA hle V hAV Q hQ hVQ hsplit x
+
+/-- C15: the compression step used by every solver (`compr.T @ p @ compr` after dropping zero rows, and the
+    complementary problem above) for a contraction that need not be idempotent: the unit eigenvectors of `CᵀAC` are
+    exactly the `v` whose expansion `C v` is a unit eigenvector of `A`. -/
+theorem compressed_contraction_unit_eigenvectors {k : Type*} [Fintype k] [DecidableEq n] [DecidableEq k]
+    (C : Matrix n k K) (hC : Cᵀ * C = 1) (A : Matrix n n K) (hA : Aᵀ = A)
+    (hle : ∀ x : n → K, x ⬝ᵥ (A *ᵥ x) ≤ x ⬝ᵥ x) (v : k → K) :
+    (Cᵀ * A * C) *ᵥ v = v ↔ A *ᵥ (C *ᵥ v) = C *ᵥ v :=
+  Deflation.compressed_contraction_unit_iff C hC A hA hle v
 
 end L3
 
